@@ -172,6 +172,11 @@ def gen_case(g, cid, hard, rich):
     c.cmds.append("OPEN %x" % flags)
     used = set()
     c.used = used
+    # fragment attributes of the root format file (set before any /INCLUDE so that a new
+    # subfragment inherits them; see the finding on inherited attributes)
+    if rich and r.random() < 0.3:
+        c.cmds.append("FRAGATTR 0 %x %d %d -1" % (r.choice([0, 4, 8]), r.choice([-1, 0, 1, 2, 3]), r.choice([0, 0, 5, 2 ** 40, 2 ** 63 - 1])))
+        c.pure = False
     # optional subfragment with namespace / prefix / suffix (fields are added to it below)
     c.inc = None
     if rich and r.random() < 0.4:
@@ -416,9 +421,8 @@ def gen_case(g, cid, hard, rich):
             hn = r.choice(tops)
             c.cmds.append("HIDE %s" % hx(hn))
             c.pure = False
-        if r.random() < 0.3:
-            c.cmds.append("FRAGATTR 0 %x %d %d -1" % (r.choice([0, 4, 8]), r.choice([-1, 0, 1, 2, 3]), r.choice([0, 0, 5, 2 ** 40, 2 ** 63 - 1])))
-            c.pure = False
+        if c.inc and r.random() < 0.4:
+            c.cmds.append("FRAGATTR 1 %x %d %d -1" % (r.choice([0, 4, 8]), r.choice([-1, 0, 1, 2, 3]), r.choice([0, 0, 7, 2 ** 40])))
     # standards version requested before the flush (ignored by the library if not available)
     if r.random() < 0.5:
         c.cmds.append("STD %d" % r.choice([6, 7, 8, 9, 10, 9, 8]))
@@ -964,9 +968,9 @@ def main():
 
 
 def strip_z(h):
-    """drop the explicit no-representation suffix .z that the writer adds to codes whose
-    (sub)field name is the single character r, i, a or m"""
-    if h.endswith("2e7a") and len(h) >= 6 and h[-6:-4] in ("72", "69", "61", "6d") and (len(h) == 6 or h[-8:-6] == "2f"):
+    """drop the explicit no-representation suffix .z (the writer adds it to codes whose
+    (sub)field name is the single character r, i, a or m; it means "no representation")"""
+    if h.endswith("2e7a") and len(h) >= 6:
         return h[:-4]
     return h
 
